@@ -14,6 +14,8 @@ pub mod c09;
 pub mod c11;
 pub mod c12;
 pub mod c13;
+pub mod c14;
+pub mod c15;
 pub mod c16;
 pub mod c17;
 pub mod c18;
@@ -130,6 +132,24 @@ pub fn spec(id: &str) -> Option<Spec> {
             min_evaluations: 1_000,
             min_nontrivial: 300,
             run: c13::run,
+        },
+        "C14" => Spec {
+            id: "C14",
+            level: "fault_enumeration",
+            shards_quick: 4,
+            shards_thorough: 14,
+            min_evaluations: 100,
+            min_nontrivial: 50,
+            run: c14::run,
+        },
+        "C15" => Spec {
+            id: "C15",
+            level: "exploration",
+            shards_quick: 8,
+            shards_thorough: 14,
+            min_evaluations: 500,
+            min_nontrivial: 200,
+            run: c15::run,
         },
         "C16" => Spec {
             id: "C16",
